@@ -441,6 +441,10 @@ def run_cov(case, ratios):
             mchunks.append("(" + ("true" if it else "false") + ", [" + "; ".join(
                 "[" + "; ".join(lit(v) for v in row) + "]" for row in rows) + "]%float)")
             pos += size
+            if len(mchunks) == 1 and len(case["chunks"]) > 1 and size > 0:
+                # a matrix read now is the statistics of the samples seen SO FAR, also after later updates / reads
+                early = rcm.covar_matrix
+                early_vals = [[enc(early[i, j]) for j in range(k)] for i in range(k)]
         cm = rcm.covar_matrix
         seen = [[[i, j, [rc.count, enc(rc.xmean), enc(rc.ymean), enc(rc.C)]] for (i, j), rc in rcm.rcs.items()],
                 [[enc(cm[i, j]) for j in range(k)] for i in range(k)], rcm.count]
@@ -453,6 +457,14 @@ def run_cov(case, ratios):
             scm = rcm.sample_covar_matrix
             seen.append([[enc(scm[i, j]) for j in range(k)] for i in range(k)])
             sample_entries = {(i, j): float(scm[i, j]) for i in range(k) for j in range(k)}
+        # matrices handed out earlier are values: later reads / updates must not change them
+        if any(enc(cm[i, j]) != enc(entries[i, j]) for i in range(k) for j in range(k)):
+            bad.append(("matrix-changed-after-it-was-read",
+                        "covar_matrix read before sample_covar_matrix now holds other values (the two reads share "
+                        "one array)"))
+        if "early" in dir() and [[enc(early[i, j]) for j in range(k)] for i in range(k)] != early_vals:
+            bad.append(("matrix-changed-after-it-was-read",
+                        "a covar_matrix read after the first chunk changed when more samples were added"))
         count = rcm.count
         means = {i: rcm.rcs[i, i].xmean for i in range(k)}
         obs = {"count": rcm.count, "covar_matrix": [[float(cm[i, j]) for j in range(k)] for i in range(k)]}
